@@ -401,7 +401,7 @@ Definition get_slot (p : PRS) (h r t : Z) : option slot :=
     else if (p_ccr p =? r) then (if t =? prevote_type then None else Some SCatchup)
     else if (p_polround p =? r) then (if t =? prevote_type then Some SPOL else None)
     else None
-  else if p_height p =? h + 1 then
+  else if p_height p =? as_uint (h + 1) then
     if (p_lcr p =? r) then (if t =? prevote_type then None else Some SLast) else None
   else None.
 
@@ -463,7 +463,7 @@ Definition ensure_vote_bit_arrays (p : PRS) (h n : Z) : res PRS :=
     do p2 <- (match p_precommits p1 with Some _ => Ok p1 | None => do b <- new_bitarray n; Ok (set_precommits p1 b) end);
     do p3 <- (match cc_of p2 with Some _ => Ok p2 | None => do b <- new_bitarray n; Ok (set_cc p2 b false) end);
     (match p_pol p3 with Some _ => Ok p3 | None => do b <- new_bitarray n; Ok (set_pol p3 b) end)
-  else if p_height p =? h + 1 then
+  else if p_height p =? as_uint (h + 1) then
     (match p_lc p with Some _ => Ok p | None => do b <- new_bitarray n; Ok (set_lc p b) end)
   else Ok p.
 
@@ -511,7 +511,7 @@ Definition apply_nrs (p : PRS) (h r s lcr : Z) : PRS :=
       (* LastCommit = ps.PRS.Precommits — already reset to nil two statements earlier *)
       {| p_height := h; p_round := r; p_step := s; p_proposal := proposal; p_total := total; p_parts := parts;
          p_polround := polr; p_pol := pol; p_prevotes := prevotes; p_precommits := precommits2;
-         p_lcr := lcr; p_lc := (if (psH + 1 =? h) && (psR =? lcr) then precommits2 else None);
+         p_lcr := lcr; p_lc := (if (as_uint (psH + 1) =? h) && (psR =? lcr) then precommits2 else None);
          p_ccr := 0; p_cc := None; p_cc_alias := false |}
     else
       {| p_height := h; p_round := r; p_step := s; p_proposal := proposal; p_total := total; p_parts := parts;
